@@ -89,3 +89,11 @@ Proof.
   destruct (v_jailed v); [discriminate|].
   destruct (negb (status_eqb (v_status v) Bonded)); [discriminate|]. now intros [= <-].
 Qed.
+
+(* non-vacuity: a bonded unjailed validator passes; a jailed one, an unbonding one and an unknown one are refused *)
+Example active_examples :
+  arun true (Some (false, true)) x_guards_Keeper_ensureActiveValidator = Some None /\
+  arun true (Some (true, true)) x_guards_Keeper_ensureActiveValidator = Some (Some EStkValidatorJailed) /\
+  arun true (Some (false, false)) x_guards_Keeper_ensureActiveValidator = Some (Some ESdkInvalidRequest) /\
+  arun true None x_guards_Keeper_ensureActiveValidator = Some (Some EStkNoValidatorFound).
+Proof. vm_compute. repeat split; reflexivity. Qed.
